@@ -58,6 +58,7 @@ var propC02 = parserProp{
 	opts: func(kind string) histOpts {
 		o := defaultHistOpts()
 		o.parseNil = 2
+		o.triplePct = 10
 		return o
 	},
 	classify: func(x *parserExec) ([]string, bool) {
